@@ -105,6 +105,15 @@ Theorem waited_goroutines_always_started : started_okb launches closers chan_wai
 Proof. exact waited_goroutines_always_started_l. Qed.
 Print Assumptions waited_goroutines_always_started.
 
+(* no new shared state outside the table: every map / slice field of the owner types that is mutated, assigned or handed on
+   outside a constructor and is used by code reachable from two goroutine entry points (a unit started by `go`, an exported
+   method) is tracked by the table (and so falls under discipline_holds) or is in the justified exemption list *)
+Example shared_exemptions_are : shared_exemptions = [].
+Proof. reflexivity. Qed.
+Theorem untracked_shared_fields : untracked_shared shared_exemptions shared_untracked = [].
+Proof. exact untracked_shared_fields_l. Qed.
+Print Assumptions untracked_shared_fields.
+
 (* hence: threads whose acquisitions and waits are instances of edges of that graph (from every lock held there and
    from every group that covers the thread) never reach a state in which every unfinished thread is blocked *)
 Theorem table_no_wait_deadlock (grp : nat -> list group) (progs : nat -> list gev) n s0 s :
